@@ -124,7 +124,7 @@ def exhaustive_steps(kind, trees, ops, limit=None):
             b = H.build_state(kind, t)
             try:
                 pre = H.snapshot(b.fs)
-                impl = H.apply_op(b.fs, op)
+                impl = H.apply_op(b.fs, op, keep_order=True)
                 post = H.snapshot(b.fs)
                 steps.append(H.Step(kind, pre, op, impl, post, hid, 0))
             finally:
